@@ -570,11 +570,32 @@ func timeTerm(v value) *Term {
 	return tt
 }
 
+// wallClockSite names the function that reads the wall clock in a way the native
+// hook can reproduce from runtime.Callers: last path element of the package,
+// receiver type and method without pointer marks, closures folded into their parent.
+func wallClockSite(fr *frame) string {
+	if fr.caller == nil || fr.caller.fn == nil {
+		return "?"
+	}
+	return normFuncName(fr.caller.fn.String())
+}
+
+func normFuncName(s string) string {
+	if i := strings.IndexAny(s, "$["); i >= 0 {
+		s = s[:i]
+	}
+	s = strings.NewReplacer("(", "", ")", "", "*", "").Replace(s)
+	if i := strings.LastIndex(s, "/"); i >= 0 {
+		s = s[i+1:]
+	}
+	return s
+}
+
 func registerTime(e *Engine) {
 	tm := "(time.Time)."
 	e.reg("time.Now", func(fr *frame, args []value) value {
 		// wall clock: an arbitrary instant (2001..2100), see C08
-		ns := fr.p.newInput("wallclock", SInt, new(big.Int).Mul(big.NewInt(1_000_000_000), big.NewInt(1_000_000_000)), new(big.Int).Mul(big.NewInt(4_102_444_800), big.NewInt(1_000_000_000)))
+		ns := fr.p.newInput("wallclock@"+wallClockSite(fr), SInt, new(big.Int).Mul(big.NewInt(1_000_000_000), big.NewInt(1_000_000_000)), new(big.Int).Mul(big.NewInt(4_102_444_800), big.NewInt(1_000_000_000)))
 		fr.p.note("time.Now() called from %s", fr.caller.fn)
 		return timeVal{ns: ns}
 	})
@@ -671,9 +692,21 @@ func registerTime(e *Engine) {
 		t, _ := toTerm(args[0])
 		return Op("/", SReal, ToReal(t), RealConst("1000000000.0"))
 	})
+	wall := func(fr *frame) *Term {
+		ns := fr.p.newInput("wallclock@"+wallClockSite(fr), SInt, new(big.Int).Mul(big.NewInt(1_000_000_000), big.NewInt(1_000_000_000)), new(big.Int).Mul(big.NewInt(4_102_444_800), big.NewInt(1_000_000_000)))
+		fr.p.note("wall clock read from %s", fr.caller.fn)
+		return ns
+	}
+	dur := func(d *Term) value {
+		lo, hi := IntConst(new(big.Int).Neg(pow2(63))), IntConst(new(big.Int).Sub(pow2(63), big1))
+		return conc(Ite(Lt(d, lo), lo, Ite(Gt(d, hi), hi, d)), true)
+	}
+	// Since / Until read the wall clock like Now (stored times carry no monotonic reading)
 	e.reg("time.Since", func(fr *frame, args []value) value {
-		abort("unmodelled", "time.Since")
-		return nil
+		return dur(Sub(wall(fr), timeTerm(args[0])))
+	})
+	e.reg("time.Until", func(fr *frame, args []value) value {
+		return dur(Sub(timeTerm(args[0]), wall(fr)))
 	})
 }
 
